@@ -120,4 +120,26 @@ v("c10-swapped-read-calls", "C10", "C10.b", [(TBL, "\tif linearizable {\n\t\tval
 v("c10-n-flip-read-branches", "C10", "none", [(TBL, "\tif linearizable {\n\t\tval, err = t.nh.SyncRead(ctx, t.ClusterID, req)\n\t} else {\n\t\tval, err = t.nh.StaleRead(t.ClusterID, req)\n\t}", "\tif !linearizable {\n\t\tval, err = t.nh.StaleRead(t.ClusterID, req)\n\t} else {\n\t\tval, err = t.nh.SyncRead(ctx, t.ClusterID, req)\n\t}")])
 v("c10-n-noop-check-inverted-shape", "C10", "none", [(FSM, "\t\tif _, noop := cmd.(commandDummy); !noop {\n\t\t\tbts, err := res.MarshalVT()\n\t\t\tif err != nil {\n\t\t\t\treturn nil, err\n\t\t\t}\n\t\t\tupdates[i].Result.Data = bts\n\t\t}", "\t\tswitch cmd.(type) {\n\t\tcase commandDummy:\n\t\tdefault:\n\t\t\tbts, err := res.MarshalVT()\n\t\t\tif err != nil {\n\t\t\t\treturn nil, err\n\t\t\t}\n\t\t\tupdates[i].Result.Data = bts\n\t\t}")])
 
+# ---------------- C11 ----------------
+Q = "storage/queue.go"; FOL = "cmd/follower.go"; MGR = "storage/table/manager.go"
+NEW_SWEEP = "\t\t\t\t// Answer and drop the expired waiters (each exactly once), keep the rest.\n\t\t\t\tlive := h.Slice[:0]\n\t\t\t\tfor _, elem := range h.Slice {\n\t\t\t\t\tif err := elem.ctx.Err(); err != nil {\n\t\t\t\t\t\telem.waitCh <- err\n\t\t\t\t\t\tcontinue\n\t\t\t\t\t}\n\t\t\t\t\tlive = append(live, elem)\n\t\t\t\t}\n\t\t\t\tif len(live) == len(h.Slice) {\n\t\t\t\t\treturn\n\t\t\t\t}\n\t\t\t\tclear(h.Slice[len(live):])\n\t\t\t\t*h = *heap.New(h.Less, live...)\n"
+OLD_SWEEP = "\t\t\t\tl := h.Len()\n\t\t\t\tfor i := 0; i < l; i++ {\n\t\t\t\t\telem := h.Slice[i]\n\t\t\t\t\tif elem.ctx.Err() != nil {\n\t\t\t\t\t\t// Reorder\n\t\t\t\t\t\telem.revision = 0\n\t\t\t\t\t\telem.waitCh <- elem.ctx.Err()\n\t\t\t\t\t}\n\t\t\t\t}\n\t\t\t\th.Fix(0)\n\t\t\t\tfor i := 0; i < l; i++ {\n\t\t\t\t\telem := h.Peek()\n\t\t\t\t\tif elem.revision == 0 {\n\t\t\t\t\t\th.Pop()\n\t\t\t\t\t} else {\n\t\t\t\t\t\tbreak\n\t\t\t\t\t}\n\t\t\t\t}\n"
+v("c11-f3-parent", "C11", "C11.c", [(Q, NEW_SWEEP, OLD_SWEEP)], "parent of fix F3 (also trips C11.d)")
+v("c11-f3-parent-key", "C11", "C11.d", [(Q, NEW_SWEEP, OLD_SWEEP)], "parent of fix F3: heap key overwritten")
+v("c11-put-no-wait", "C11", "C11.a", [(KV, "\treturn put, <-r.q.Add(ctx, string(req.Table), put.Header.Revision)", "\t_ = r.q.Add(ctx, string(req.Table), put.Header.Revision)\n\treturn put, nil")])
+v("c11-delete-waits-wrong-table", "C11", "C11.a", [(KV, "return del, <-r.q.Add(ctx, string(req.Table), del.Header.Revision)", "return del, <-r.q.Add(ctx, string(req.Key), del.Header.Revision)")])
+v("c11-txn-waits-revision-minus-one", "C11", "C11.a", [(KV, "return txn, <-r.q.Add(ctx, string(req.Table), txn.Header.Revision)", "return txn, <-r.q.Add(ctx, string(req.Table), txn.Header.Revision-1)")])
+v("c11-callback-before-commit", "C11", "C11.b", [(FSM, "\tif err := ctx.Commit(); err != nil {\n\t\treturn nil, err\n\t}\n\n\tp.metrics.applied.Store(idx)\n\tif ctx.leaderIndex != nil {\n\t\tp.appliedFunc(*ctx.leaderIndex)\n\t} else {\n\t\tp.appliedFunc(idx)\n\t}", "\tif ctx.leaderIndex != nil {\n\t\tp.appliedFunc(*ctx.leaderIndex)\n\t} else {\n\t\tp.appliedFunc(idx)\n\t}\n\tif err := ctx.Commit(); err != nil {\n\t\treturn nil, err\n\t}\n\n\tp.metrics.applied.Store(idx)")])
+v("c11-callback-always-local-index", "C11", "C11.b", [(FSM, "\tif ctx.leaderIndex != nil {\n\t\tp.appliedFunc(*ctx.leaderIndex)\n\t} else {\n\t\tp.appliedFunc(idx)\n\t}\n\treturn updates, nil", "\tp.appliedFunc(idx)\n\treturn updates, nil")])
+v("c11-unbuffered-waitch", "C11", "C11.e", [(Q, "ch := make(chan error, 1)", "ch := make(chan error)")])
+v("c11-notify-strict-less", "C11", "C11.e", [(Q, "} else if elem.revision <= n.revision {", "} else if elem.revision < n.revision || n.revision == 0 {")])
+v("c11-notify-no-pop-after-cancel", "C11", "C11.c", [(Q, "\t\t\t\t\telem.waitCh <- elem.ctx.Err()\n\t\t\t\t\th.Pop()", "\t\t\t\t\telem.waitCh <- elem.ctx.Err()")])
+v("c11-sweep-keeps-answered", "C11", "C11.c", [(Q, "\t\t\t\t\t\telem.waitCh <- err\n\t\t\t\t\t\tcontinue\n", "\t\t\t\t\t\telem.waitCh <- err\n")])
+v("c11-sweep-replace-dropped", "C11", "C11.c", [(Q, "\t\t\t\t*h = *heap.New(h.Less, live...)\n", "\t\t\t\t_ = live\n")])
+v("c11-listener-other-queue", "C11", "C11.b", [(FOL, "AppliedIndexListener: nQueue.Notify,", "AppliedIndexListener: storage.NewNotificationQueue().Notify,")])
+v("c11-listener-wrong-arg", "C11", "C11.b", [(MGR, "\t\t\t\tif m.cfg.Table.AppliedIndexListener != nil {\n\t\t\t\t\tm.cfg.Table.AppliedIndexListener(name, applied)\n\t\t\t\t}\n\t\t\t}),\n\t\t\ttableRaftConfig(m.cfg.NodeID, id, m.cfg.Table),\n\t\t)\n\t}", "\t\t\t\tif m.cfg.Table.AppliedIndexListener != nil {\n\t\t\t\t\tm.cfg.Table.AppliedIndexListener(name, id)\n\t\t\t\t}\n\t\t\t}),\n\t\t\ttableRaftConfig(m.cfg.NodeID, id, m.cfg.Table),\n\t\t)\n\t}")])
+v("c11-n-notify-ge-flipped", "C11", "none", [(Q, "} else if elem.revision <= n.revision {", "} else if n.revision >= elem.revision {")])
+v("c11-n-waitch-cap2", "C11", "none", [(Q, "ch := make(chan error, 1)", "ch := make(chan error, 2)")])
+v("c11-n-put-wait-via-local", "C11", "none", [(KV, "\treturn put, <-r.q.Add(ctx, string(req.Table), put.Header.Revision)", "\twait := r.q.Add(ctx, string(req.Table), put.Header.Revision)\n\terr = <-wait\n\treturn put, err")])
+
 json.dump(V, sys.stdout, indent=1)
